@@ -30,7 +30,7 @@ def run(ctx):
                 ("data_2c2s_lazy", C(nc=2, ns=2, units=2, maxwrite=2, feat='"swrite","lazy"', extrainv="StaysUp"), 2400)]
     n = (lambda a, b: a if q else b)
     gens = [("2c1s", C(nc=2, ns=1, units=2, maxwrite=2), 30, 0, None, 2, {"allconc": not q}),
-            ("3c2s", C(nc=3, ns=2, units=2, maxwrite=2), 60, 0, n(250, 4000), 3, {}),
+            ("3c2s", C(nc=3, ns=2, units=2, maxwrite=2, feat='"swrite","readfrom"'), 60, 0, n(250, 4000), 3, {}),
             ("2c2s_lazy", C(nc=2, ns=2, units=3, maxwrite=2, feat='"swrite","lazy"'), 60, 0, n(200, 3000), 2, {}),
             ("bigwrite", C(nc=2, ns=1, units=4, maxwrite=4, feat='"swrite"'), 40, 0, n(150, 2000), 2, {}),
             ("addconn", C(nc=2, ns=1, units=2, maxwrite=1, late="2", feat='"swrite","gates"'), 30, 0, n(200, 2000), 2,
